@@ -96,11 +96,13 @@ class _CExpr:
     def take(self):
         t = self.peek(); self.i += 1; return t
 
+    py = False
+
     def level(self, ops, sub):
         e = sub()
         while self.peek() in ops:
             op = self.take()
-            e = f"({e} {ops[op]} {sub()})"
+            e = f"(({e} {op} {sub()}) & M64)" if self.py else f"({e} {ops[op]} {sub()})"
         return e
 
     def expr(self):
@@ -131,7 +133,7 @@ class _CExpr:
                 raise Broken("translate", "hash_combine: missing )")
             return e
         if re.match(r"0[xX]|\d", t):
-            return f"({t.rstrip('uUlL')} : UInt64)"
+            return t.rstrip("uUlL") if self.py else f"({t.rstrip('uUlL')} : UInt64)"
         if re.match(r"[A-Za-z_]\w*$", t):
             return t
         raise Broken("translate", f"hash_combine: unexpected token {t!r}")
@@ -186,11 +188,28 @@ TNAMES = list(TYPES)
 PARAM_VARIANTS = ["none", "enum", "irange", "frange", "iprange", "fprange", "string"]
 WLEARNERS = ["affine", "stump", "hinge", "dtree", "dense-table", "kbest-table", "ksplit-table", "dstep-table"]
 LINEARS = ["ordinary", "lasso", "ridge", "elastic_net"]
-FACTORIES = {"solver": 46, "loss": 17, "splitter": 2, "tuner": 2, "lsearch0": 4, "lsearchk": 5}   # how many indices to enumerate
+FACTORIES = {"solver": 35, "loss": 17, "splitter": 2, "tuner": 2, "lsearch0": 4, "lsearchk": 5}   # how many indices to enumerate
+
+
+_HC = []
 
 
 def hash_combine(seed, h):
-    return seed ^ ((h + 0x9e3779b9 + ((seed << 6) & M64) + (seed >> 2)) & M64)
+    """`detail::hash_combine` evaluated from the text of include/nano/core/hash.h (so that a change of the mixing constants
+    alone, which keeps write and read consistent, is not reported as a layout violation); 64-bit wrap-around arithmetic"""
+    if not _HC:
+        f = None
+        try:
+            hh = open(os.path.join(vlib.REPO, "include", "nano", "core", "hash.h")).read()
+            m = re.search(r"inline\s+uint64_t\s+hash_combine\s*\(\s*const\s+uint64_t\s+(\w+)\s*,\s*const\s+uint64_t\s+(\w+)\s*\)"
+                          r"\s*\{\s*return\s+([^;]+);\s*\}", hh)
+            e = _CExpr(m.group(3))
+            e.py = True
+            f = eval(f"lambda {m.group(1)}, {m.group(2)}: {e.parse()}", {"M64": M64})
+        except Exception:
+            f = None
+        _HC.append(f or (lambda seed, h: seed ^ ((h + 0x9e3779b9 + ((seed << 6) & M64) + (seed >> 2)) & M64)))
+    return _HC[0](seed, h)
 
 
 def tensor_hash(ty, payload):
@@ -313,6 +332,34 @@ def malformed(rng, n):
         ops.append(f"codec read feature {hx(feat(b'int8xyz'))} expect=accept")     # from_string<enum>: prefix match
         ops.append(f"codec read feature {hx(feat(b'xint8'))} expect=reject")
         ops.append(f"codec read feature {hx(feat(b''))} expect=reject")
+        # hand-made models: linear (bias.size() == weights.rows() is insisted on), weak learners under the wrong / right id
+        learner = config_stream((0, 0, 1), ps) + evec([feat(b"float64"), feat(b"sclass")]) + feat(b"float64")
+        k, n = rng.range(1, 3), rng.range(0, 3)
+        t1 = lambda d: tensor_stream("f64", [d], bytes(rng.below(256) for _ in range(8 * d)))
+        t2 = lambda r, c: tensor_stream("f64", [r, c], bytes(rng.below(256) for _ in range(8 * r * c)))
+        ops.append(f"codec read factory linear 0 {hx(estr(b'ordinary') + learner + t1(k) + t2(k, n))} expect=accept")
+        ops.append(f"codec read factory linear 0 {hx(estr(b'lasso') + learner + t1(k) + t2(k + 1, n))} expect=reject")
+        ops.append(f"codec read factory linear 0 {hx(estr(b'ridge') + learner + t1(k + 1) + t2(k, n))} expect=reject")
+        ops.append(f"codec read factory linear 0 {hx(estr(b'lbfgs') + learner + t1(k) + t2(k, n))} expect=reject")
+        tables = tensor_stream("f64", [2, 1, 1, 1], bytes(rng.below(256) for _ in range(16)))
+        stump = learner + i64(rng.range(-1, 5)) + tables + u64(rng.below(1 << 64))
+        ops.append(f"codec read wlearner {hx(estr(b'stump') + stump)} expect=accept")
+        ops.append(f"codec read wlearner {hx(estr(b'affine') + stump)} expect=accept")          # 8 trailing bytes stay unread
+        ops.append(f"codec read wlearner {hx(estr(b'hinge') + stump)} expect=reject")           # the hinge side is missing
+        ops.append(f"codec read wlearner {hx(estr(b'hinge') + stump + u32(rng.below(1 << 32)))} expect=accept")
+        ops.append(f"codec read wlearner {hx(estr(b'dense-table') + stump)} expect=reject")
+        ops.append(f"codec read wlearner {hx(estr(b'dtree') + stump)} expect=reject")
+        nodes = evec([i32(0) + u64(rng.below(1 << 64)) + u32(1) + i32(-1), i32(-1) + u64(0) + u32(0) + i32(0)])
+        feats = tensor_stream("i64", [1], i64(0))
+        ops.append(f"codec read wlearner {hx(estr(b'dtree') + learner + nodes + feats + tables)} expect=accept")
+        hashes = tensor_stream("u64", [2], u64(rng.below(1 << 64)) + u64(rng.below(1 << 64)))
+        h2t = tensor_stream("i64", [2], i64(0) + i64(1))
+        tid = rng.choice([b"dense-table", b"kbest-table", b"ksplit-table", b"dstep-table"])
+        ops.append(f"codec read wlearner {hx(estr(tid) + learner + i64(1) + tables + hashes + h2t)} expect=accept")
+        ops.append(f"codec read wlearner {hx(estr(tid) + learner + i64(1) + tables + h2t + hashes)} expect=accept")  # same sizeof: only the hash rule differs (none here: values < 2^63)
+        gb = learner + t1(1) + evec([estr(b'stump') + stump]) + evec([estr(b'affine') + learner + i64(-1) + tensor_stream("f64", [0, 0, 0, 0], b"")])
+        ops.append(f"codec read gboost {hx(gb)} expect=accept")
+        ops.append(f"codec read gboost {hx(gb[:-1])} expect=reject")
     return ops
 
 
@@ -478,8 +525,8 @@ def oracle(aug, res):
         for i in range(nacc):
             e = body[i * step:(i + 1) * step]
             p, v = int(e[0]), int(e[1])
-            dims = [int(x) for x in e[3:3 + rank]]
-            nbytes = int(e[3 + rank])
+            dims = [int(x) for x in e[4:4 + rank]]          # e = p v T <rank> <dims…> <nbytes> <fnv>
+            nbytes = int(e[4 + rank])
             bad = bytearray(S); bad[p] = v
             replay = f"replay: codec read {fmt} {hx(bad)} expect=reject"
             if p >= hl:
